@@ -1076,7 +1076,7 @@ func ruleClearEarliestStaysInsideTheLog(c *eng.Ctx) {
 					walk(e, d+1)
 				}
 			}
-			if call := eng.AsCall(v); call != nil && isBuiltinCall(call, "min") {
+			if call := eng.AsCall(v); call != nil && (isBuiltinCall(call, "min") || eng.CalleeRef(&call.Call) == cl+"min") {
 				for _, a := range call.Call.Args {
 					walk(a, d+1)
 				}
